@@ -440,8 +440,8 @@ impl<const SIZE: usize> FixedBuf<SIZE> {
     ///
     /// Panics if the buffer does not contain enough bytes.
     pub fn read_bytes(&mut self, num_bytes: usize) -> &[u8] {
+        assert!(num_bytes <= self.len(), "read would underflow");
         let new_read_index = self.read_index + num_bytes;
-        assert!(new_read_index <= self.write_index, "read would underflow");
         let old_read_index = self.read_index;
         // We update `read_index` after any possible panic.
         // This keeps the struct consistent even when a panic happens.
@@ -721,11 +721,11 @@ impl<const SIZE: usize> FixedBuf<SIZE> {
         if num_bytes == 0 {
             return;
         }
-        let new_write_index = self.write_index + num_bytes;
         assert!(
-            new_write_index <= self.mem.as_mut().len(),
+            num_bytes <= self.mem.as_mut().len() - self.write_index,
             "write would overflow"
         );
+        let new_write_index = self.write_index + num_bytes;
         self.write_index = new_write_index;
     }
 
